@@ -31,7 +31,6 @@ def check(ctx):
                   'removed on every path before t+1 is used as an index')
     ctx.doc('R3', 'the stacked rows carry the kinds their column labels name (atom, outer site before/after, inner site before/after, frame t)')
     ctx.doc('R4', 'previous site = forward fill, next site = backward fill of the outer states, fill marker NOSITE, along the frame axis')
-    ctx.floor('R1', 2, 'i[-1], i2[-1]')
     ctx.floor('R2', 4)
     ctx.floor('R3', 6)
     ctx.floor('R4', 2)
@@ -56,6 +55,11 @@ def check(ctx):
                'array proven non-empty here' if not bad else
                f'`{norm_text(e["node"])}` is evaluated on an index array that can be empty (an atom that changes its outer '
                f'site but never its inner state): IndexError while building the event table')
+    for e in uniq_events(it, {'wrap_filter_too_strict'}, inside):
+        ctx.ob('R2', fi, e['node'], False, 'the mask that removes the wrap-around pseudo change also removes real changes at the last '
+                                           'frames: a change between the last two frames is never reported')
+    if n == 0:
+        ctx.ob('R1', fi, 'first/last element of change-index arrays', True, 'no first/last element of a possibly empty index array is taken')
     # ---- R2 / R3 from the table
     tabs = uniq_events(it, {'table'}, inside)
     if not tabs:
@@ -75,7 +79,9 @@ def check(ctx):
             srcs = sorted(d.split('.')[-1] for d in (v.origin or frozenset()) if d.startswith('_calculate_transition_events.'))
             ok = have_kind == kind
             why = []
-            if not ok:
+            if not ok and have_kind == 'SUBPOS':
+                why.append(f'holds positions inside a filtered selection of {vi[1]}s, not {vi[1]} indices: rows are attributed to the wrong {vi[1]}')
+            elif not ok:
                 why.append(f'holds {have_kind or "an unknown kind"} values, expected {kind}')
             if ok and src is not None and srcs != [src]:
                 ok = False
